@@ -24,7 +24,7 @@ FUNCTIONS = ["AbstractOption._validate_flags/_validate_short_name/_add_default_f
              "utils.string.parse_string/parse_boolean/parse_int/parse_float"]
 PART = {}
 BOUNDS = {"quick": "E2: every 16-bit flag word x short-name presence (one unsat query per obligation); E1 constructors: structured flag words (6 low bits x type-bit selections x NULLABLE x undefined bits) for options, [0,1024) for arguments x short name x default kind {none, scalar, list, empty string, 0, empty list}; "
-                   "names: length <= 3 over {a,Z,1,-,_,e-acute,newline} with and without dash prefix; conversions: int text of every int with |n| <= 10**6, texts of length <= 3 over {1,-,.,e,n,u,l,i,f,space}",
+                   "names: length <= 3 over {a,Z,1,-,_,e-acute,newline,long-s,Kelvin-sign} with and without dash prefix; conversions: int text of every int with |n| <= 10**6, texts of length <= 3 over {1,-,.,e,n,u,l,i,f,space}",
           "thorough": "same with names up to length 4 and conversion texts up to length 4"}
 OUTSIDE = ["parse_float(repr(x)) == x for arbitrary floats: repr()/float() are C code and realise the symbolic value; only a pinned list of floats is pushed through (reported as concretised, not decided)",
            "flag words >= 2**16 in the E2 obligations (E1 contracts take them up to the stated range)"]
@@ -336,7 +336,7 @@ def argument_ctor(flags: int) -> bool:
 
 # ---------------------------------------------------------------- E1: names
 
-NAME_ALPHA = "aZ1-_é\n"
+NAME_ALPHA = "aZ1-_é\n\u017f\u212a"      # incl. two characters that case-fold to ASCII letters (long s, Kelvin sign): not ASCII, not well-formed
 ASCII_LETTERS = "abcdefghijklmnopqrstuvwxyzABCDEFGHIJKLMNOPQRSTUVWXYZ"
 ASCII_ALNUM_HY = ASCII_LETTERS + "0123456789-"
 
@@ -382,6 +382,7 @@ def _accepts(make):
 def long_name(s: str, dashes: bool) -> bool:
     """
     pre: len(s) == PART["n"]
+    pre: PART.get("dashes") is None or dashes == PART["dashes"]
     pre: all(c in NAME_ALPHA for c in s)
     post: _
     """
@@ -678,7 +679,9 @@ def conditions(tier):
                       "bounds": "every flag word in [0,1024) (all defined argument bits + two undefined)"})
     nmax = 3 if quick else 4
     for n in range(0, nmax + 1):
-        conds.append({"name": "long_name[len=%d]" % n, "fn": long_name, "timeout": t, "part": {"n": n}, "bounds": "all names of length %d over {a,Z,1,-,_,e-acute,newline}, with and without '--'" % n})
+        for dashes in ([None] if n < 3 else [False, True]):
+            conds.append({"name": "long_name[len=%d%s]" % (n, "" if dashes is None else (",with --" if dashes else ",bare")), "fn": long_name, "timeout": t, "part": {"n": n, "dashes": dashes},
+                          "bounds": "all names of length %d over {a,Z,1,-,_,e-acute,newline,long-s,Kelvin-sign}, %s" % (n, "with and without '--'" if dashes is None else ("with '--'" if dashes else "without prefix"))})
         conds.append({"name": "argument_name[len=%d]" % n, "fn": argument_name, "timeout": t, "part": {"n": n}, "bounds": "all names of length %d" % n})
         conds.append({"name": "alias_name[len=%d]" % n, "fn": alias_name, "timeout": t, "part": {"n": n}, "bounds": "all aliases of length %d" % n})
     conds.append({"name": "dashed_name[body<=%d]" % (2 if quick else 3), "fn": dashed_name, "timeout": t, "part": {"n": 2 if quick else 3},
